@@ -42,7 +42,7 @@ var keyPairsRed = [][]string{{"k", "#x"}, {"", "true"}}
 var csvHeaders1 = strLeaves
 var csvHeaderPairs = [][]string{{"h", "k"}, {"#x", "k"}, {"", "k"}, {" lead", "a,b"}, {"1", "true"}, {"a\"b", "é"}}
 var csvCells9 = []string{"", "a", "#x", " lead", "true", "a,b", "a\"b", "1", "é"}
-var csvCellsSmall = []string{"", "a", "#x", " lead", "a,b", "a\"b", "é"}
+var csvCellsSmall = []string{"", "a", "#x", " lead", "a,b"}
 
 // ---- document enumeration --------------------------------------------------------------------------
 
@@ -171,15 +171,16 @@ func tables(headers1 []string, pairs [][]string, cells []string, maxRows int, co
 
 func families(quick bool) []family {
 	kids1 := 2
-	red := leafRed
 	if !quick {
 		kids1 = 3
-		red = leafRedT
 	}
-	d1red := collect(func(emit func(any) bool) bool {
-		return arraysOver(red, 0, 2, false, emit) && mapsOver(red, keys1Red[:2], keyPairsRed[:1], true, false, emit)
-	})
-	ch2 := append(append([]any{}, red...), d1red...)
+	children := func(red []any) []any {
+		d1red := collect(func(emit func(any) bool) bool {
+			return arraysOver(red, 0, 2, false, emit) && mapsOver(red, keys1Red[:2], keyPairsRed[:1], true, false, emit)
+		})
+		return append(append([]any{}, red...), d1red...)
+	}
+	ch2 := children(leafRed)
 	fams := []family{
 		{"leaf", func(emit func(any) bool) bool {
 			for _, l := range leafFull {
@@ -206,8 +207,45 @@ func families(quick bool) []family {
 	} else {
 		fams = append(fams, family{"table", tables(nil, csvHeaderPairs, strLeaves, 2, false, true)})
 		fams = append(fams, family{"table-3rows", tables(csvHeaders1[:5], csvHeaderPairs, csvCellsSmall, 3, true, true)})
+		// the wider reduced leaf set (8 leaves), fan-out 2; documents already produced over the
+		// 6-leaf set are skipped so that no input is evaluated twice
+		ch3 := children(leafRedT)
+		seen := map[string]bool{}
+		for _, v := range ch2 {
+			seen[g3util.JSON(v)] = true
+		}
+		fresh := func(emit func(any) bool) func(any) bool {
+			return func(doc any) bool {
+				if onlyOver(doc, seen) {
+					return true
+				}
+				return emit(doc)
+			}
+		}
+		fams = append(fams,
+			family{"array-d2w", func(emit func(any) bool) bool { return arraysOver(ch3, 1, 2, true, fresh(emit)) }},
+			family{"map-d2w", func(emit func(any) bool) bool { return mapsOver(ch3, keys1Red, keyPairsRed, false, true, fresh(emit)) }})
 	}
 	return fams
+}
+
+// onlyOver: every child of the container is in the given set (canonical JSON).
+func onlyOver(doc any, set map[string]bool) bool {
+	switch t := doc.(type) {
+	case []any:
+		for _, e := range t {
+			if !set[g3util.JSON(e)] {
+				return false
+			}
+		}
+	case map[string]any:
+		for _, e := range t {
+			if !set[g3util.JSON(e)] {
+				return false
+			}
+		}
+	}
+	return true
 }
 
 // ---- representability (what the statement quantifies over) ------------------------------------------
@@ -380,7 +418,7 @@ type wit struct {
 func init() {
 	vlib.Register(&vlib.Check{
 		ID: "C14", Engine: "E2",
-		Rule:   "JSON documents over the leaves {\"\", a, #x, ' lead', true, null, 1, 'a,b', a\"b, 'a: b', '- a', é, ~ (strings), 0, 1, -1.5, true, null}: every leaf; every array of 0..K leaves (K=2 quick, 3 thorough); every map {} / one entry keyed by each of the 13 strings / entries for 4 key pairs (+2 key triples thorough); every depth-2 array (1..K children) and map (4 single keys, 2 key pairs) with at least one container child, children taken from a reduced leaf set (6 quick, 8 thorough) and all depth-1 containers over it; csv tables as arrays of flat objects: 1 column (13 headers) x 1..2 rows of cells from the 13 strings and 2 columns (6 header pairs) x 1..2 rows over 9 of them (thorough: all 13, and also 3 rows over 7 cells). Each document is written to the json-typed stdin of `format F -> format json` for F = yaml (always), toml (top-level maps), jsonl (top-level arrays), csv (tables); stdout must decode (encoding/json, numbers as float64) to the same value. Not asserted, run for no-panic/termination only and counted: yaml top-level null, toml with null or a heterogeneous array, jsonl empty array or null line, csv empty table. non-trivial = the document contains a string leaf or key other than the plain words a/h/k (i.e. something that needs format-specific quoting)",
+		Rule:   "JSON documents over the leaves {\"\", a, #x, ' lead', true, null, 1, 'a,b', a\"b, 'a: b', '- a', é, ~ (strings), 0, 1, -1.5, true, null}: every leaf; every array of 0..K leaves (K=2 quick, 3 thorough); every map {} / one entry keyed by each of the 13 strings / entries for 4 key pairs (+2 key triples thorough); every depth-2 array (1..K children) and map (4 single keys, 2 key pairs) with at least one container child, children taken from the reduced leaf set {\"\", #x, true, 1, -1.5, null} and all depth-1 containers (fan-out 2) over it (thorough: also fan-out 2 over the 8-leaf set that adds a and true(bool)); csv tables as arrays of flat objects: 1 column (13 headers) x 1..2 rows of cells from the 13 strings and 2 columns (6 header pairs) x 1..2 rows over 9 of them (thorough: all 13, and also 3 rows over 5 cells). Each document is written to the json-typed stdin of `format F -> format json` for F = yaml (always), toml (top-level maps), jsonl (top-level arrays), csv (tables); stdout must decode (encoding/json, numbers as float64) to the same value. Not asserted, run for no-panic/termination only and counted: yaml top-level null, toml with null or a heterogeneous array, jsonl empty array or null line, csv empty table. non-trivial = the document contains a string leaf or key other than the plain words a/h/k (i.e. something that needs format-specific quoting)",
 		Run:    run,
 		Replay: replay,
 		Assumptions: []string{
